@@ -1,4 +1,4 @@
-import AsynqModel.Core.Syntax
+import AsynqModel.Core.Seq
 /-
   The abstract machine: asynq/scheduler.py (`wait_for`, `_execute`, `_handle_async_task`, `_continue_with_task`,
   `_continue_with_batch`, `_select_batch_to_flush`, `_flush_batch`), asynq/async_task.py (`_continue`,
@@ -11,34 +11,6 @@ import AsynqModel.Core.Syntax
 -/
 namespace AsynqModel.Core
 
-inductive PrioMode where
-  | dflt             -- (0, len(items))
-  | rev              -- (0, 100 - len(items))
-  | const (p : Nat)  -- (p, 0)
-  deriving Repr, DecidableEq, Inhabited
-
-structure KindCfg where
-  prio : PrioMode := .dflt
-  raises : Bool := false      -- the flush body raises after handling its items
-  deriving Repr, DecidableEq, Inhabited
-
-structure Cfg where
-  kinds : List (Nat × KindCfg) := []
-  maxStack : Nat := 1000000   -- _debug.options.MAX_TASK_STACK_SIZE
-  keepDeps : Bool := false    -- _debug.options.KEEP_DEPENDENCIES
-  deriving Repr, Inhabited
-
-def Cfg.kind (c : Cfg) (k : Nat) : KindCfg := (c.kinds.lookup k).getD {}
-
-def priority (kc : KindCfg) (n : Nat) : Nat × Nat :=
-  match kc.prio with
-  | .dflt => (0, n)
-  | .rev => (0, 100 - n)
-  | .const p => (p, 0)
-
-/-- Python tuple comparison `a < b` -/
-def prioLt (a b : Nat × Nat) : Bool := a.1 < b.1 || (a.1 == b.1 && a.2 < b.2)
-
 structure TaskSt where
   body : Body := .ret 0
   conts : List (Nat × Body) := []   -- open with-blocks, innermost first: context id, continuation after the block
@@ -50,6 +22,7 @@ structure TaskSt where
   started : Bool := false
   lastY : RY := .none               -- `_last_value`
   prevY : RY := .none               -- the structure yielded last (the program may yield the same object again)
+  prevYRef : Y := .none             -- GHOST: the same structure as written in the program
   deps : List Nat := []             -- `_dependencies` in extract_futures order
   depsSched : Bool := false         -- `_dependencies_scheduled`
   ctxs : List Nat := []             -- `_contexts` in entry order
@@ -70,6 +43,7 @@ structure Fut where
   kind : FKind := .const
   out : Option Outcome := none
   ts : TaskSt := {}
+  den : Outcome := .err .other   -- GHOST: the outcome sequential evaluation gives this future (fixed at creation)
   deriving Repr, Inhabited
 
 structure Batch where
@@ -83,6 +57,7 @@ structure CtxSt where
   kind : CtxKind := .plain
   owner : Option Nat := none   -- the task it registered with (`_active_task` at `__enter__`)
   old : Nat := 0               -- `_old_value` of an override context
+  resumed : Bool := false      -- GHOST: resume() was called last (not pause())
   deriving Repr, DecidableEq, Inhabited
 
 inductive Ctl where
@@ -108,6 +83,7 @@ structure State where
   raising : Option Err := none          -- an exception propagating out of `wait_for`
   choices : List (Nat × Nat) := []      -- oracle: which admissible batch the scheduler flushes next
   stuck : Option String := none         -- the model's own assumptions were violated (never on reachable states)
+  guardFired : Bool := false            -- GHOST: the MAX_TASK_STACK_SIZE guard has reset the scheduler at least once
   deriving Repr, Inhabited
 
 /-! ### small accessors -/
@@ -139,83 +115,6 @@ def State.svSet (s : State) (var val : Nat) : State :=
 def State.svTouch (s : State) (var : Nat) : State :=
   if s.sv.any (fun p => p.1 == var) then s else { s with sv := s.sv ++ [(var, 0)] }
 
-/-! ### yielded structures: `extract_futures`, leaves, `unwrap` -/
-
-mutual
-/-- leaves in written (structure) order -/
-def YS.leaves {α : Type} : YS α → List α
-  | .none => []
-  | .junk => []
-  | .f r => [r]
-  | .tup l => YS.leavesList l
-  | .lst l => YS.leavesList l
-  | .dict _ vs => YS.leavesList vs
-def YS.leavesList {α : Type} : List (YS α) → List α
-  | [] => []
-  | y :: ys => YS.leaves y ++ YS.leavesList ys
-end
-
-mutual
-/-- `extract_futures`: tuples and lists are walked backwards ("tasks are added to a stack, so the last one executes
-    first"), dict values forwards -/
-def extractFutures : RY → List Nat
-  | .none => []
-  | .junk => []
-  | .f r => [r]
-  | .tup l => extractRev l
-  | .lst l => extractRev l
-  | .dict _ vs => extractFwd vs
-/-- elements last to first -/
-def extractRev : List RY → List Nat
-  | [] => []
-  | y :: ys => extractRev ys ++ extractFutures y
-def extractFwd : List RY → List Nat
-  | [] => []
-  | y :: ys => extractFutures y ++ extractFwd ys
-end
-
-mutual
-def YS.mapLeaves {α β : Type} (g : α → β) : YS α → YS β
-  | .none => .none
-  | .junk => .junk
-  | .f r => .f (g r)
-  | .tup l => .tup (YS.mapLeavesList g l)
-  | .lst l => .lst (YS.mapLeavesList g l)
-  | .dict ks vs => .dict ks (YS.mapLeavesList g vs)
-def YS.mapLeavesList {α β : Type} (g : α → β) : List (YS α) → List (YS β)
-  | [] => []
-  | y :: ys => YS.mapLeaves g y :: YS.mapLeavesList g ys
-end
-
-mutual
-/-- `unwrap`: every future replaced by its value, same shape; the first failing leaf in structure order raises;
-    a non-future raises TypeError.  `look f = none` (uncomputed future) cannot happen when the scheduler is right;
-    it is reported as `Err.other`. -/
-def unwrap {α : Type} (look : α → Option Outcome) : YS α → Except Err Val
-  | .none => .ok .none
-  | .junk => .error .typeerr
-  | .f r => match look r with
-    | some (.ok v) => .ok v
-    | some (.err e) => .error e
-    | none => .error .other
-  | .tup l => match unwrapList look l with
-    | .ok vs => .ok (.tup vs)
-    | .error e => .error e
-  | .lst l => match unwrapList look l with
-    | .ok vs => .ok (.lst vs)
-    | .error e => .error e
-  | .dict ks l => match unwrapList look l with
-    | .ok vs => .ok (.dict ks vs)
-    | .error e => .error e
-def unwrapList {α : Type} (look : α → Option Outcome) : List (YS α) → Except Err (List Val)
-  | [] => .ok []
-  | y :: ys => match unwrap look y with
-    | .error e => .error e
-    | .ok v => match unwrapList look ys with
-      | .error e => .error e
-      | .ok vs => .ok (v :: vs)
-end
-
 /-! ### futures -/
 
 /-- allocate a future; its number is the creation index -/
@@ -229,32 +128,37 @@ def State.complete (s : State) (f : Nat) (o : Outcome) : State :=
   let ts := if s.cfg.keepDeps then x.ts else { x.ts with deps := [] }
   (s.setFut f { x with out := some o, ts := { ts with lastY := .none, deps := [] } }).emit (.done f o)
 
-def itemVal (kind payload : Nat) : Val := .a (1000 * (kind + 1) + payload)
-
-def lazyOutcome : LazyOut → Outcome
-  | .ok v => .ok (.a v)
-  | .err e => .err (.u e)
-
 /-! ### contexts -/
 
-def State.ctxResumeOne (s : State) (c : Nat) : State :=
-  let s := s.emit (.ctx true c)
+def State.ctxSetResumed (s : State) (c : Nat) (r : Bool) : State :=
   match s.ctxs[c]? with
-  | some { kind := .override var val, owner := o, old := _ } =>
-    let old := s.svGet var
-    { (s.svSet var val) with ctxs := s.ctxs.set c { kind := .override var val, owner := o, old := old } }
-  | _ => s
+  | some x => { s with ctxs := s.ctxs.set c { x with resumed := r } }
+  | none => s
+
+def State.ctxResumeOne (s : State) (c : Nat) : State :=
+  let s := (s.emit (.ctx true c)).ctxSetResumed c true
+  match s.ctxs[c]? with
+  | some x =>
+    match x.kind with
+    | .override var val =>
+      let old := s.svGet var
+      { (s.svSet var val) with ctxs := s.ctxs.set c { x with old := old } }
+    | _ => s
+  | none => s
 
 def State.ctxPauseOne (s : State) (c : Nat) : State :=
-  let s := s.emit (.ctx false c)
+  let s := (s.emit (.ctx false c)).ctxSetResumed c false
   match s.ctxs[c]? with
-  | some { kind := .override var _, owner := _, old := old } => s.svSet var old
-  | _ => s
+  | some x =>
+    match x.kind with
+    | .override var _ => s.svSet var x.old
+    | _ => s
+  | none => s
 
 def State.ctxIsNonAsync (s : State) (c : Nat) : Bool :=
   match s.ctxs[c]? with
-  | some { kind := .nonasync, owner := _, old := _ } => true
-  | _ => false
+  | some x => x.kind == .nonasync
+  | none => false
 
 /-- `AsyncContext.__exit__`: leave_context (unregister from the task it registered with), then pause() - unless the
     task's contexts are already paused (the task is being failed while suspended and its generator is closed);
@@ -408,6 +312,9 @@ def State.handleTask (s : State) (t : Nat) : State :=
       let s := (s.updTask t fun ts => { ts with depsSched := true }).resumeContexts t
       let ds := ts.deps.filter fun d => !s.computed d
       { s with stack := ds.reverse ++ s.stack }
+  else if s.ctl.any (fun c => match c with | .gen u _ => u == t | _ => false) then
+    -- the real generator would raise "ValueError: generator already executing": outside the model
+    s.fail "re-entrant task"
   else
     -- _continue_with_task
     let s := s.resumeContexts t
@@ -419,7 +326,7 @@ def State.executeIter (s : State) : State :=
   | [] => s.fail "empty stack"
   | top :: _ =>
     if s.stack.length > s.cfg.maxStack then
-      ({ s with stack := [], sbatches := [], active := none }).raiseOutOfWait .stackguard
+      ({ s with stack := [], sbatches := [], active := none, guardFired := true }).raiseOutOfWait .stackguard
     else if s.computed top then s.popStack
     else match (s.fut top).kind with
       | .task => s.handleTask top
@@ -444,10 +351,12 @@ def State.leaveGen (s : State) (t : Nat) (old : Option Nat) : State :=
 
 /-- the task finishes (return / result() / uncaught exception): leave open with-blocks, store the outcome -/
 def State.finishTask (s : State) (t : Nat) (old : Option Nat) (o : Outcome) : State :=
-  (((s.exitAll t).updTask t fun ts => { ts with pending := false }).complete t o).leaveGen t old
+  if s.computed t then s.fail "task completed twice"   -- `_queue_exit` would raise FutureIsAlreadyComputed
+  else (((s.exitAll t).updTask t fun ts => { ts with pending := false }).complete t o).leaveGen t old
 
 def State.newTask (s : State) (child : Body) (inh : List Nat) : State × Nat :=
-  s.alloc { kind := .task, ts := { body := child, inh := inh, creator := s.active } } (.task s.active)
+  let den := (evalBody s.cfg child [] [] (inh.map fun i => (s.fut i).den) none .none).outcome
+  s.alloc { kind := .task, ts := { body := child, inh := inh, creator := s.active }, den := den } (.task s.active)
 
 /-- one instruction of the body of task `t` (or the `unwrap`-and-send at the head of `_continue`) -/
 def State.genStep (s : State) (t : Nat) (old : Option Nat) : State :=
@@ -491,23 +400,23 @@ def State.genStep (s : State) (t : Nat) (old : Option Nat) : State :=
     match s.curBatch? kind with
     | none => s.fail "no batch"
     | some b =>
-      let (s, f) := s.alloc { kind := .item kind b.seq payload mode } (.item kind b.seq b.items.length payload mode)
+      let (s, f) := s.alloc { kind := .item kind b.seq payload mode, den := itemOutcome s.cfg kind payload mode } (.item kind b.seq b.items.length payload mode)
       let s := s.updBatch kind b.seq fun b => { b with items := b.items ++ [f] }
       s.updTask t fun ts => { ts with own := ts.own ++ [f], body := k }
   | .const v k =>
-    let (s, f) := s.alloc { kind := .const, out := some (.ok (.a v)) } (.const v)
+    let (s, f) := s.alloc { kind := .const, out := some (.ok (.a v)), den := .ok (.a v) } (.const v)
     s.updTask t fun ts => { ts with own := ts.own ++ [f], body := k }
   | .errfut e k =>
-    let (s, f) := s.alloc { kind := .errfut, out := some (.err (.u e)) } (.errfut e)
+    let (s, f) := s.alloc { kind := .errfut, out := some (.err (.u e)), den := .err (.u e) } (.errfut e)
     s.updTask t fun ts => { ts with own := ts.own ++ [f], body := k }
   | .lazy o k =>
-    let (s, f) := s.alloc { kind := .lazy o } .lazy
+    let (s, f) := s.alloc { kind := .lazy o, den := lazyOutcome o } .lazy
     s.updTask t fun ts => { ts with own := ts.own ++ [f], body := k }
   | .yld y _ _ =>
     let ry : RY := y.mapLeaves ts.resolve
     let deps := (if s.cfg.keepDeps then ts.deps else []) ++ extractFutures ry
     let s := (s.emit (.yield t ts.resumes ry)).updTask t fun ts =>
-      { ts with pending := true, lastY := ry, prevY := ry, deps := deps }
+      { ts with pending := true, lastY := ry, prevY := ry, prevYRef := y, deps := deps }
     if deps.isEmpty then s else s.leaveGen t old
   | .reyld _ _ =>
     let ry := ts.prevY
